@@ -13,7 +13,8 @@ import MdVerif.Driver.Nb
 import MdVerif.Driver.Ang
 import MdVerif.Driver.Sasa
 import MdVerif.Driver.Qcp
-open MdVerif MdVerif.Driver MdVerif.Driver.TrajP MdVerif.Driver.TopoP MdVerif.Driver.WriterP MdVerif.Driver.SelP MdVerif.Driver.MicP MdVerif.Driver.CellP MdVerif.Driver.NbP MdVerif.Driver.AngP MdVerif.Driver.SasaP MdVerif.Driver.QcpP
+import MdVerif.Driver.Image
+open MdVerif MdVerif.Driver MdVerif.Driver.TrajP MdVerif.Driver.TopoP MdVerif.Driver.WriterP MdVerif.Driver.SelP MdVerif.Driver.MicP MdVerif.Driver.CellP MdVerif.Driver.NbP MdVerif.Driver.AngP MdVerif.Driver.SasaP MdVerif.Driver.QcpP MdVerif.Driver.ImageP
 
 def handle (line : String) : String :=
   let ws := (line.splitOn " ").filter (· ≠ "")
@@ -29,6 +30,7 @@ def handle (line : String) : String :=
   | "ang" :: _ | "dih" :: _ | "tors" :: _ => handleAng ws
   | "sasa" :: _ => handleSasa ws
   | "qcp" :: _ | "qrot" :: _ => handleQcp ws
+  | "imgorder" :: _ | "imgvalid" :: _ | "imgwhole" :: _ | "imgwrap" :: _ => handleImage ws
   | _ => "bad-op"
 
 partial def loop (h : IO.FS.Stream) (out : IO.FS.Stream) : IO Unit := do
